@@ -401,3 +401,116 @@ func (p *Prog) liftRegistry() ([]regEntry, []string) {
 	}
 	return out, problems
 }
+
+// nameTypes maps every element name the registries know (IANA, Antrea, and the derived reverse registry) to its
+// data type name(s).
+func (p *Prog) nameTypes(tb *ieTables) (map[string]map[string]bool, []string) {
+	reg, problems := p.liftRegistry()
+	out := map[string]map[string]bool{}
+	add := func(n, t string) {
+		if out[n] == nil {
+			out[n] = map[string]bool{}
+		}
+		out[n][t] = true
+	}
+	nonRev := map[string]bool{}
+	if pk := p.pkg("pkg/registry"); pk != nil {
+		for _, f := range pk.Syntax {
+			ast.Inspect(f, func(n ast.Node) bool {
+				vs, ok := n.(*ast.ValueSpec)
+				if !ok || len(vs.Names) != 1 || vs.Names[0].Name != "nonReversibleIEs" || len(vs.Values) != 1 {
+					return true
+				}
+				if cl, ok := vs.Values[0].(*ast.CompositeLit); ok {
+					for _, el := range cl.Elts {
+						if kv, ok := el.(*ast.KeyValueExpr); ok {
+							if tv, ok := pk.TypesInfo.Types[kv.Key]; ok && tv.Value != nil {
+								nonRev[constant.StringVal(tv.Value)] = true
+							}
+						}
+					}
+				}
+				return false
+			})
+		}
+	}
+	if len(nonRev) == 0 {
+		problems = append(problems, "nonReversibleIEs literal not found (reverse registry cannot be derived)")
+	}
+	for _, e := range reg {
+		t := tb.TypeNames[e.Type]
+		add(e.Name, t)
+		if e.Ent == 0 && e.Name != "" && !nonRev[e.Name] {
+			add("reverse"+strings.ToUpper(e.Name[:1])+e.Name[1:], t)
+		}
+	}
+	return out, problems
+}
+
+// checkNameSwitch applies R-GETTER to a switch over an element NAME: the accessor used in case "n" must be declared by
+// the concrete element type of every registered element called n.
+func checkNameSwitch(p *Prog, r *Report, pk *packages.Package, tb *ieTables, names map[string]map[string]bool, fnName string, sw *ast.SwitchStmt, recvType string) int {
+	n := 0
+	for _, c := range clausesOf(pk, sw, nil) {
+		if c.Default {
+			continue
+		}
+		var acc []string
+		for _, m := range methodCallsOn(pk, c.Body, recvType) {
+			if isValueAccessor(m) {
+				acc = append(acc, m)
+			}
+		}
+		for _, l := range c.Labels {
+			ts, known := names[l]
+			if !known {
+				if len(acc) > 0 {
+					r.Undecided("R-GETTER.name", fmt.Sprintf("%s: case %q", fnName, l), p.pos(c.Pos), "element name is not in any registry table: its data type is unknown")
+				}
+				continue
+			}
+			for _, m := range acc {
+				n++
+				ok := true
+				var tl []string
+				for t := range ts {
+					tl = append(tl, t)
+					if !tb.getterOK(t, m) {
+						ok = false
+					}
+				}
+				sort.Strings(tl)
+				r.Check(ok, "R-GETTER.name", fmt.Sprintf("%s: case %q uses %s", fnName, l, m), p.pos(c.Pos), "declared by the element type of "+strings.Join(tl, "/"),
+					fmt.Sprintf("%q is registered with data type %s whose element type does not declare %s: the promoted accessor panics", l, strings.Join(tl, "/"), m), true)
+			}
+		}
+	}
+	return n
+}
+
+type ast_FuncDecl = ast.FuncDecl
+
+// nameSwitchesInPkg applies checkNameSwitch to every switch over ie.GetName() in the package.
+func nameSwitchesInPkg(p *Prog, r *Report, pkgPath string, tb *ieTables, names map[string]map[string]bool) int {
+	pk := p.Pkgs[pkgPath]
+	total := 0
+	if pk == nil {
+		return 0
+	}
+	for _, f := range pk.Syntax {
+		for _, d := range f.Decls {
+			fd, ok := d.(*ast.FuncDecl)
+			if !ok || fd.Body == nil {
+				continue
+			}
+			for _, sw := range stringSwitches(pk, fd) {
+				if call, ok := sw.Tag.(*ast.CallExpr); ok {
+					if sel, ok := call.Fun.(*ast.SelectorExpr); ok && sel.Sel.Name == "GetName" {
+						total += checkNameSwitch(p, r, pk, tb, names, strings.TrimPrefix(pkgPath, modPath+"/")+"."+fd.Name.Name, sw, "pkg/entities.InfoElementWithValue")
+					}
+				}
+			}
+		}
+	}
+	return total
+}
